@@ -61,6 +61,17 @@ def create_dict(**kwargs):
     return dictionary
 
 
+def _unitaries_of(nn_state, unitaries=None):
+    """The dictionary of unitaries to rotate with: the one given, else the
+    state's own, else (states which carry none, e.g. PositiveWaveFunction)
+    the default dictionary."""
+    if unitaries:
+        return unitaries
+    if hasattr(nn_state, "unitary_dict"):
+        return nn_state.unitary_dict
+    return create_dict()
+
+
 def _kron_mult(matrices, x):
     n = [m.size()[0] for m in matrices]
     l, r = np.prod(n), 1  # noqa: E741
@@ -109,7 +120,7 @@ def rotate_psi(nn_state, basis, space, unitaries=None, psi=None):
         else psi.to(dtype=torch.double, device=nn_state.device)
     )
 
-    unitaries = unitaries if unitaries else nn_state.unitary_dict
+    unitaries = _unitaries_of(nn_state, unitaries)
     unitaries = {k: v.to(device=nn_state.device) for k, v in unitaries.items()}
     us = [unitaries[b] for b in basis]
     return _kron_mult(us, psi)
@@ -140,7 +151,7 @@ def rotate_rho(nn_state, basis, space, unitaries=None, rho=None):
         else rho.to(dtype=torch.double, device=nn_state.device)
     )
 
-    unitaries = unitaries if unitaries else nn_state.unitary_dict
+    unitaries = _unitaries_of(nn_state, unitaries)
     unitaries = {k: v.to(device=nn_state.device) for k, v in unitaries.items()}
     us = [unitaries[b] for b in basis]
 
@@ -152,7 +163,7 @@ def rotate_rho(nn_state, basis, space, unitaries=None, rho=None):
 
 # TODO: make this a generator function
 def _rotate_basis_state(nn_state, basis, states, unitaries=None):
-    unitaries = unitaries if unitaries else nn_state.unitary_dict
+    unitaries = _unitaries_of(nn_state, unitaries)
     unitaries = {k: v.to(device="cpu") for k, v in unitaries.items()}
 
     basis = np.array(list(basis))
